@@ -268,3 +268,164 @@ class Concretizer:
                 return c
         self.unrealised.append(p)
         return cands[0] if cands else None
+
+
+# ---------------------------------------------------------------------------------------------
+# encoder-vs-CPython differential: the path the encoding predicts for a concrete input must be the one the real
+# handler takes (DESIGN 2.6).  A disagreement is an encoder bug (exit 3), never a violation of a property.
+# ---------------------------------------------------------------------------------------------
+
+
+def _node(j: Any, path: str):
+    """Value at a probe-tree path ('j', '.key', '[0]', '[1]', '[*]', '[w]'); KeyError if absent."""
+    cur = j
+    rest = path[1:]
+    while rest:
+        if rest.startswith("["):
+            end = rest.index("]")
+            k = rest[1:end]
+            rest = rest[end + 1 :]
+            if not isinstance(cur, list):
+                raise KeyError(path)
+            idx = int(k) if k.isdigit() else 2
+            if idx >= len(cur):
+                raise KeyError(path)
+            cur = cur[idx]
+        elif rest.startswith("."):
+            m = 1
+            while m < len(rest) and rest[m] not in ".[":
+                m += 1
+            key = rest[1:m]
+            rest = rest[m:]
+            if not isinstance(cur, dict) or key not in cur:
+                raise KeyError(path)
+            cur = cur[key]
+        else:
+            raise KeyError(path)
+    return cur
+
+
+def assignment(sym: Site, j: Any, declared_keys: Dict[str, set]) -> Dict[str, Any]:
+    env: Dict[str, Any] = {}
+    for name in sym.decls:
+        body = name[1:-1]
+        kind, _, rest = body.partition(" ")
+        try:
+            if kind == "has":
+                p, key = rest.split(" :: ", 1)
+                node = _node(j, p)
+                if isinstance(node, dict):
+                    env[name] = (any(k not in declared_keys.get(p, set()) for k in node)) if key == OMEGA else (key in node)
+                continue
+            if kind in ("valid!", "valid?", "mapvalues!", "mapvalues?", "elemtest", "intparse_ok", "intparse", "pystr"):
+                continue
+            node = _node(j, rest)
+        except KeyError:
+            continue
+        if kind == "tag":
+            env[name] = 0 if node is None else 1 if isinstance(node, bool) else 2 if isinstance(node, int) else 3 if isinstance(node, float) else 4 if isinstance(node, str) else 5 if isinstance(node, list) else 6
+        elif kind == "b" and isinstance(node, bool):
+            env[name] = node
+        elif kind == "i" and isinstance(node, int) and not isinstance(node, bool):
+            env[name] = node
+        elif kind == "r" and isinstance(node, float):
+            env[name] = node
+        elif kind == "s" and isinstance(node, str):
+            env[name] = node
+        elif kind == "len" and isinstance(node, list):
+            env[name] = len(node)
+        elif kind == "nonempty" and isinstance(node, dict):
+            env[name] = len(node) > 0
+        elif kind == "nkeys" and isinstance(node, dict):
+            env[name] = len(node)
+    return env
+
+
+def _form_pred(r, j) -> str:
+    from contracts.jsonsym import VJson, VJsonMapped, VStructured
+    from pyvc.symex import VInt, VList, VNone, VStr, VTuple
+
+    if r is None or isinstance(r, VNone):
+        return "None"
+    if isinstance(r, (VJson, VStr, VInt)):
+        return "pass"
+    if isinstance(r, VStructured):
+        return r.cls
+    if isinstance(r, VJsonMapped):
+        n = len(j) if isinstance(j, list) else 0
+        return "[" + ",".join(_form_pred(r.items[min(i, NELEMS)], j[i]) for i in range(n)) + "]"
+    if isinstance(r, (VList, VTuple)):
+        if not r.items:
+            return "[]"
+        return "(" + ",".join("pass" for _ in r.items) + ")"
+    return "?"
+
+
+def _form_native(live, obj, j) -> str:
+    if obj is j and not isinstance(obj, (list, tuple)) or (obj is j and isinstance(obj, list) and not obj and False):
+        return "pass"
+    if obj is j:
+        return "pass"
+    if obj is None:
+        return "None"
+    if live.attrs.has(type(obj)):
+        return type(obj).__name__
+    import enum as _enum
+
+    if isinstance(obj, _enum.Enum):
+        return type(obj).__name__
+    if isinstance(obj, list):
+        if not obj:
+            return "[]"
+        return "[" + ",".join(_form_native(live, x, y) for x, y in zip(obj, j)) + "]"
+    if isinstance(obj, tuple):
+        return "(" + ",".join("pass" for _ in obj) + ")"
+    return "pass"
+
+
+def differential(live, mm: MetaModel, res, inputs: List[Any]) -> Tuple[int, List[Dict[str, Any]]]:
+    from pyvc import evalterm
+
+    sym = res.sym
+    paths = res.extra.get("paths_full") or []
+    if not paths or sym is None:
+        return 0, []
+    shadow_keys = {p: set(ks) for p, ks in sym.keys.items()}
+    n = 0
+    bad: List[Dict[str, Any]] = []
+    for j in inputs:
+        if isinstance(j, list) and len(j) > NELEMS + 1:
+            continue
+        env = assignment(sym, j, shadow_keys)
+        preds = []
+        unknown = False
+        for pc, out, r in paths:
+            h = evalterm.holds([sym.resolve(t) for t in pc], env)
+            if h is None:
+                unknown = True
+            if h:
+                preds.append("raise" if out[0] == "raise" else _form_pred(r, j))
+        if unknown and not preds:
+            continue
+        try:
+            obj = res.site.handler(j, res.site.annotation)
+            nat = _form_native(live, obj, j)
+        except Exception as e:  # noqa
+            nat = "raise"
+        def canon(f):
+            if j is None and f in ("pass", "None"):
+                return "None"
+            if isinstance(j, list) and not j and f in ("pass", "[]"):
+                return "[]"
+            return f
+
+        preds = [canon(p) for p in preds]
+        nat = canon(nat)
+        n += 1
+        # downstream rejection (structure of the chosen class raises) is not the handler's path: compare the choice only
+        ok = nat in preds or (nat == "raise" and any(p not in ("pass", "None", "[]") for p in preds)) or (not preds and unknown)
+        if preds and len(set(preds)) > 1 and nat != "raise":
+            ok = ok and False
+        if not ok:
+            bad.append({"handler": res.site.handler_name, "input": j, "predicted": sorted(set(preds)), "native": nat})
+    return n, bad
